@@ -106,7 +106,11 @@ def gen(spec):
 
 def _canonical(names, dm, ds):
     others = names[1:]
-    key0 = (dm, ds)
+
+    def norm(dm_, ds_):
+        f = lambda d: tuple("\x00" if t is None else t for t in d)
+        return (f(dm_), tuple(f(d) for d in ds_))
+    key0 = norm(dm, ds)
     for perm in itertools.permutations(others):
         if list(perm) == others:
             continue
@@ -116,7 +120,7 @@ def _canonical(names, dm, ds):
         ds2 = [None] * len(others)
         for n, d in zip(others, ds):
             ds2[others.index(ren[n])] = tuple(rn(t) for t in d)
-        if (dm2, tuple(ds2)) < key0:
+        if norm(dm2, ds2) < key0:
             return False
     return True
 
